@@ -325,6 +325,27 @@ func runC13(rc *RunCtx) {
 		}
 		fregs, _ := fresh.(regsResponse).AsRegisters(uint16(start))
 		want := applyRdOp(fregs, fresh, start, ob.op)
+		if ob.op.Kind >= 23 {
+			// a field's value must not depend on which other fields are extracted with it, nor on their order:
+			// expected = every field extracted alone, each from its own private copy
+			want = ""
+			anyErr := false
+			for _, f := range ob.op.Field {
+				one, _ := parseRegsResponse(fr, append([]byte(nil), snapshot...))
+				br := modbus.BuilderRequest{StartAddress: uint16(start), Fields: []modbus.Field{f}}
+				vals, e := br.ExtractFields(one, true)
+				if e != nil {
+					anyErr = true
+				}
+				for _, fv := range vals {
+					want += fmt.Sprintf("[%s=%#v err=%v]", fv.Field.Name, fv.Value, fv.Error != nil)
+				}
+			}
+			if ob.op.Kind == 23 && anyErr {
+				want = "" // strict extraction fails as a whole
+			}
+			want = fmt.Sprintf("%s err=%v", want, anyErr)
+		}
 		if ob.got != want {
 			rc.Violate("result_depends_on_history", fmt.Sprintf("%s|op=%s", sigBase, name),
 				"reader %d call #%d %v returned %s; on a fresh private copy of the same response it returns %s", ob.reader, ob.idx, ob.op, trunc([]byte(ob.got), 120), trunc([]byte(want), 120))
